@@ -12,11 +12,16 @@ Definition notWritten : Z := -1.
 (* recorder.reset *)
 Definition w_reset : wstate := {| w_size := notWritten; w_status := 200; w_location := [] |}.
 
+(* what the underlying http.ResponseWriter offers for flushing: nothing, http.Flusher, or
+   FlushError() error (every real net/http connection) *)
+Inductive flushkind := FNone | FFlusher | FFlushError.
+
 (* what a wrapped handler may do to the writer, as far as the Logger can tell *)
 Inductive action :=
 | AWriteHeader (code : Z)
 | AWrite (n : Z)                 (* Write / WriteString of n bytes accepted by the underlying writer *)
 | ASetLocation (v : bytes)       (* Header().Set("Location", v); [] deletes it *)
+| AFlush (k : flushkind)         (* FlushError() / ResponseController.Flush on an underlying writer offering k *)
 | APanic (id : N).               (* panic(value number id) *)
 
 (* recorder.WriteHeader *)
@@ -30,6 +35,15 @@ Definition write (w : wstate) (n : Z) : wstate :=
   let w1 := if w_size w =? notWritten
             then {| w_size := 0; w_status := w_status w; w_location := w_location w |} else w in
   {| w_size := w_size w1 + n; w_status := w_status w1; w_location := w_location w1 |}.
+
+(* recorder.FlushError (response_writer.go:217-233): both supported branches first record the
+   pending header (WriteHeader(r.status)), then flush; unsupported: ErrNotSupported, no effect *)
+Definition flush (w : wstate) (k : flushkind) : wstate :=
+  match k with
+  | FFlushError => if w_size w =? notWritten then write_header w (w_status w) else w
+  | FFlusher => if w_size w =? notWritten then write_header w (w_status w) else w
+  | FNone => w
+  end.
 
 Inductive hres := Returned | Panicked (id : N).
 
@@ -48,6 +62,7 @@ Fixpoint run_actions (acts : list action) (w : wstate) (tr : list event) : hres 
       match a with
       | AWriteHeader c => run_actions rest (write_header w c) tr'
       | AWrite n => run_actions rest (write w n) tr'
+      | AFlush k => run_actions rest (flush w k) tr'
       | ASetLocation v => run_actions rest {| w_size := w_size w; w_status := w_status w; w_location := v |} tr'
       | APanic id => (Panicked id, w, tr')
       end
